@@ -84,6 +84,8 @@ def check(chk):
         tr = pm.cls(cname).methods.get(spec["transform"])
         chk.require(tr is not None, f"{cname}.{spec['transform']} vanished")
         _c11._pairing(_RLq(chk, "PAIR.scores", "AGREE.rotation"), tr)
+        # ... and the stored sign convention, after the re-sort (shared with C11.SIGN.group.transform)
+        _c11._sign_transform(_RLq(chk, "SIGN.group.transform", "AGREE.sign"), tr)
     _acc(chk)
     chk.floor("SPACE.project", 6)
     chk.floor("AGREE", 6)
